@@ -28,6 +28,7 @@ def prove(ctx, modules, with_obligations=True, with_wrappers=False, wrap_kinds=(
             ctx.oblige('IRGen.Obl.wf_%s' % m, False, 'protocol listed in tools/fragment.json is no longer modelled (table shape changed)')
         ctx.extra['classA_protocols'] = sum(1 for n in names if '.wf_' in n) // 3
         ctx.extra['classB_protocols'] = sum(1 for n in names if '.wfB_' in n) // 3
+        ctx.extra['classC_protocols'] = sum(1 for n in names if '.wfC_' in n) // 3
         ctx.extra['manchester_tables'] = sum(1 for n in names if '.manch_' in n) // 3
     if with_wrappers:
         gen = gen + wmods
@@ -47,7 +48,7 @@ def failed_protocols(ctx):
     for name, ok, detail in ctx.obligations:
         if not ok and 'IRGen.WrapObl.c' in name:
             out.add(name.split('w_', 1)[1])
-        elif not ok and any(('IRGen.Obl.' + k) in name for k in ('wf_', 'wfB_', 'wftol_', 'manch_', 'manchData_')):
+        elif not ok and any(('IRGen.Obl.' + k) in name for k in ('wf_', 'wfB_', 'wfC_', 'wftol_', 'manch_', 'manchData_')):
             tail = name.split('_', 1)[1] if False else name.split('.')[-1].split('_', 1)[1]
             out.add(tail.rsplit('_', 1)[0] if tail.rsplit('_', 1)[-1].isdigit() else tail)
     return out
